@@ -9,7 +9,7 @@
     violation -- the correspondence run decides. *)
 From Coq Require Import ZArith List Bool.
 From GV Require Import Base.CSem.
-From GV Require Model.C05.
+From GV Require Import Model.C05.
 From GV Require Import Gen.PyC05 Proofs.PyTieC05.
 Import ListNotations.
 Open Scope Z_scope.
